@@ -147,6 +147,14 @@ theorem u8toa_canonical (num : BitVec 8) (base : BitVec 8) (hb : 2 ≤ base.toNa
   have := u64toa_spec (num.zeroExtend 64) base hb.1 hb.2 m (by rw [e]; exact hm)
   rw [e] at this; exact this
 
+/-- ... and all of them are needed: `length + 1` is exactly the number of bytes the routine
+    touches — with a buffer one byte shorter (or less) it runs outside the object -/
+theorem toa_needs_every_byte (num : BitVec 64) (base : BitVec 8) (hb : 2 ≤ base.toNat ∧ base.toNat ≤ 36)
+    (m : List Byte) :
+    (m.length ≤ (canonInt false base.toNat num.toInt).length → i64toa num m base = none) ∧
+    (m.length ≤ (canonNat true base.toNat num.toNat).length → u64toa num m base = none) :=
+  ⟨i64toa_short num base hb.1 hb.2 m, u64toa_short num base hb.1 hb.2 m⟩
+
 /-- never more than 66 bytes (sign + 64 binary digits + NUL), whatever the value and base -/
 theorem i64toa_bytes_le_66 (num : BitVec 64) (base : BitVec 8) (hb : 2 ≤ base.toNat) :
     (canonInt false base.toNat num.toInt).length + 1 ≤ 66 :=
